@@ -462,7 +462,10 @@ class JUnitReporter(Reporter):
             # -- NOTE: Scenario may fail now due to hook-errors.
             # UNEXPECTED RUNTIME-ERROR:
             report.counts_errors += 1
-            step = self.select_step_with_any_status(error_statuses, scenario.all_steps)
+            # -- HINT: A failed step may precede a hook-error (or an undefined step
+            #    that was never reached). Describe the first step with a problem.
+            step = self.select_step_with_any_status(
+                failed_statuses + error_statuses, scenario.all_steps)
             error = self._make_error_element_for(scenario, step)
             case.append(error)
             # XXX_JE_TODO: Status.undefined, Status.pending
